@@ -35,14 +35,15 @@ def c03Impl (db : Db) (coll : String) (p : List Val) : R (List Val) :=
 def handleC03i (ts : List String) : Option (List String) :=
   match ts with
   | "c03" :: r =>
-    -- Impl | Spec (or `?nospec`) | the reasons the case lies outside D
+    -- Impl | Spec (documents, `!Rejected`, or `?nospec`) | the reasons the case lies outside D
     match c03Parse r with
     | some (db, coll, p) =>
       let docs := db.get coll
       some (showR showVals (c03Impl db coll p) ++ ["|"] ++
-        (match specPipeline p docs with
-         | some out => showVals out
-         | none => ["?nospec"]) ++ ["|"] ++ (pipelineReasons p docs).eraseDups)
+        (match specPipelineV p docs with
+         | some (.docs out) => showVals out
+         | some .rejected => ["!Rejected"]
+         | none => ["?nospec"]) ++ ["|"] ++ (pipelineReasonsV p docs).eraseDups)
     | none => some ["?parse"]
   | "c03i" :: r =>
     match c03Parse r with
